@@ -60,6 +60,9 @@ def run(tier, rep):
         rc = xs[v["index"]]
         host, kind, fl = rc["id"].split(":")[1:4]
         sig = "C20.%s:%s:%s" % (v["clause"].split(".", 1)[1], "shifted" if rc["shift"] else "unshifted", host)
+        if v["clause"] == "C05.starts_line" and v["want"] == -1 and bcrun.line_in_effect(rc, v["off"]) is not None \
+                and v["got"] == bcrun.line_in_effect(rc, v["off"]) + rc["shift"]:
+            sig = "C20.starts_line:dup-of-current-line:" + host
         seen[sig] = seen.get(sig, 0) + 1
         detail = {"id": rc["id"], "clause": v["clause"], "offset": v["off"], "want": v["want"], "got": v["got"], "first_line_shift": rc["shift"]}
         rep.reject(sig, "xdis.std.get_instructions/findlabels/findlinestarts", detail, {"id": rc["id"]}) if seen[sig] <= 2 else \
